@@ -841,21 +841,7 @@ func c12r5(c *Ctx) {
 	relayOut := c.P.Method("syncer", "Peer", "RelayV2BlockOutline")
 	hdrFns, outFns, fetch, vs := env.hdrFns, env.outFns, env.fetch, env.vs
 	relays := func(f *ir.Func, set map[*types.Func]bool, target *types.Func) func(*cfgx.Node) bool {
-		return func(nd *cfgx.Node) bool {
-			if nd.AST == nil {
-				return false
-			}
-			if _, isDefer := nd.AST.(*ast.DeferStmt); isDefer {
-				return false
-			}
-			hit := false
-			for _, call := range f.CallsIn(nd.AST, true) {
-				if call.Fn != nil && (set[call.Fn] || call.Fn == target) {
-					hit = true
-				}
-			}
-			return hit
-		}
+		return c12relayNode(f, set, target)
 	}
 	// (a) the two relay handlers
 	f := vs.Of(dispatchFn(c))
@@ -1051,8 +1037,12 @@ func c12r6(c *Ctx) {
 				}
 			}
 		}
+		hdrRelay := c12relayNode(f, env.hdrFns, relayHdr)
 		settles := func(n *cfgx.Node) bool {
 			if pts[n] {
+				return true
+			}
+			if tn == "RPCRelayV2Header" && hdrRelay(n) {
 				return true
 			}
 			if n.AST == nil {
@@ -1068,9 +1058,7 @@ func c12r6(c *Ctx) {
 				if call.Fn == env.ban {
 					return true
 				}
-				if tn == "RPCRelayV2Header" && (env.hdrFns[call.Fn] || call.Fn == relayHdr) {
-					return true
-				}
+
 			}
 			return false
 		}
@@ -1092,5 +1080,104 @@ func c12r6(c *Ctx) {
 		} else {
 			ob.OK("every exit behind the work test adds/relays, unsyncs or bans")
 		}
+	}
+}
+
+// c12relayNode: node nd relays — it calls (or starts with `go`) a relay function, a literal that does, or a local
+// function variable every non-nil definition of which is such a literal. Creating the literal is not relaying.
+func c12relayNode(f *ir.Func, set map[*types.Func]bool, target *types.Func) func(*cfgx.Node) bool {
+	isRelayFn := func(fn *types.Func) bool { return fn != nil && (set[fn] || fn == target) }
+	// (a function variable shared by the announcement handlers holds, per path, the follow-up of the announcement at
+	// hand: any of the syncer's relay steps counts there)
+	anyRelay := func(fn *types.Func) bool {
+		if isRelayFn(fn) {
+			return true
+		}
+		if fn == nil || fn.Pkg() == nil || fn.Pkg().Path() != ir.PkgPath("syncer") {
+			return false
+		}
+		if strings.HasPrefix(fn.Name(), "RelayV2") && recvNamed(fn) != nil && recvNamed(fn).Obj().Name() == "Peer" {
+			return true
+		}
+		if body := f.P.FuncOf(fn); body != nil {
+			for _, call := range body.Calls(true) {
+				if call.Fn != nil && strings.HasPrefix(call.Fn.Name(), "RelayV2") && recvNamed(call.Fn) != nil && recvNamed(call.Fn).Obj().Name() == "Peer" {
+					return true
+				}
+			}
+		}
+		return false
+	}
+	litRelays := func(lit *ast.FuncLit) bool {
+		for _, call := range f.CallsIn(lit.Body, true) {
+			if anyRelay(call.Fn) {
+				return true
+			}
+		}
+		return false
+	}
+	return func(nd *cfgx.Node) bool {
+		if nd.AST == nil {
+			return false
+		}
+		if _, isDefer := nd.AST.(*ast.DeferStmt); isDefer {
+			return false
+		}
+		for _, call := range f.CallsIn(nd.AST, false) {
+			if isRelayFn(call.Fn) {
+				return true
+			}
+			switch fun := ast.Unparen(call.Expr.Fun).(type) {
+			case *ast.FuncLit: // go func() { … relay … }()
+				if litRelays(fun) {
+					return true
+				}
+			case *ast.Ident:
+				v, isVar := f.ObjOf(fun).(*types.Var)
+				if !isVar || v.IsField() {
+					continue
+				}
+				lits, other := 0, 0
+				for _, d := range wholeDefs(f, v) {
+					if vs, isSpec := d.Stmt.(*ast.ValueSpec); isSpec && len(vs.Values) == 0 {
+						continue
+					}
+					if d.RHS == nil {
+						other++
+						continue
+					}
+					if f.IsNil(d.RHS) {
+						continue
+					}
+					if cl, isZero := ast.Unparen(d.RHS).(*ast.CompositeLit); isZero && len(cl.Elts) == 0 && cl.Type == nil {
+						continue
+					}
+					if lit, isLit := ast.Unparen(d.RHS).(*ast.FuncLit); isLit && litRelays(lit) {
+						lits++
+					} else if src, isID := ast.Unparen(d.RHS).(*ast.Ident); isID {
+						// handed over from a helper's own variable
+						ok := false
+						for _, d2 := range wholeDefs(f, f.ObjOf(src)) {
+							if d2.RHS != nil {
+								if lit, isLit := ast.Unparen(d2.RHS).(*ast.FuncLit); isLit && litRelays(lit) {
+									ok = true
+								}
+							}
+						}
+						if ok {
+							lits++
+						} else {
+							other++
+						}
+					} else {
+						other++
+					}
+				}
+				if lits > 0 && other == 0 {
+					return true
+				}
+			}
+		}
+		return false
 	}
 }
